@@ -22,8 +22,17 @@ def impl(py):
     from labella.force import Force
     from labella.node import Node
     nodes = [Node(p, w, data=i) for i, (p, w) in enumerate(py["nodes"])]
-    f = Force(dict(py["opts"]))
-    f.nodes(nodes)
+    if py.get("prev_opts") is not None:
+        # the engine was configured differently and used before (same key set, so the effective
+        # options of the second layout are exactly py["opts"]): walls, spacing and layer width
+        # of the reported layout must be those of the CURRENT options
+        f = Force(dict(py["prev_opts"]))
+        f.nodes(nodes)
+        f.compute()
+        f.set_options(dict(py["opts"]))
+    else:
+        f = Force(dict(py["opts"]))
+        f.nodes(nodes)
     f.compute()
     layers = []
     link_errors = []
@@ -524,7 +533,41 @@ def _farwall_spec(rng):
                                      "nodeSpacing": rng.choice([3, 0, 2.5])}}
 
 
+def _with_prev(rng, kind, spec):
+    """a quarter of the random / fit / origin specs: the same engine ran under other values of the
+    same option keys first"""
+    if rng.random() < 0.25 and spec["opts"]:
+        prev = {}
+        for k, v in spec["opts"].items():
+            if k == "minPos":
+                prev[k] = rng.choice([None, 0, -50, 40, 100])
+            elif k == "maxPos":
+                prev[k] = rng.choice([None, 300, 600, 1000, 64])
+            elif k == "nodeSpacing":
+                prev[k] = rng.choice([0, 3, 7])
+            elif k == "algorithm":
+                prev[k] = rng.choice(ALGS + ["none"])
+            elif k == "density":
+                prev[k] = rng.choice([0.3, 0.85, 1])
+            elif k == "stubWidth":
+                prev[k] = rng.choice([0, 1, 3])
+            else:
+                prev[k] = v
+        spec = dict(spec)
+        spec["prev_opts"] = prev
+        return kind + "+reconfigured", spec
+    return kind, spec
+
+
 def gen_specs(rng, tier):
+    for kind, spec in _gen_specs(rng, tier):
+        if kind in ("random", "origin") or kind.startswith("fit"):
+            yield _with_prev(rng, kind, spec)
+        else:
+            yield kind, spec
+
+
+def _gen_specs(rng, tier):
     """yields (kind, py-input) pairs"""
     big = tier != "quick"
     # the datasets of tests/test_force.py with their three option sets, under every algorithm
